@@ -137,7 +137,50 @@ func cmdCheck(args []string) int {
 			}
 		}
 	}
+	for _, r := range results {
+		// `opt timeout=N`: functions whose obligations are known to need more than the default
+		if v := r.FC.Opts["timeout"]; v != "" {
+			if n, err := strconv.Atoi(v); err == nil && n > 0 {
+				for _, o := range r.G.obls {
+					if o.TimeoutS == 0 && !o.ExpectSat {
+						o.TimeoutS = n
+						if *tier == "thorough" {
+							o.TimeoutS = 3 * n
+						}
+					}
+				}
+			}
+		}
+	}
 	solveAll(results, *outDir, timeout, both, 10)
+	// An obligation that ran out of time while many solvers were competing for the machine is
+	// tried once more, few at a time and with three times the limit, before it counts as failed.
+	{
+		var again []*FuncResult
+		n := 0
+		for _, r := range results {
+			sub := &FuncResult{Fn: r.Fn, FC: r.FC, Display: r.Display, G: &Gen{}}
+			*sub.G = *r.G
+			sub.G.obls = nil
+			for _, o := range r.G.obls {
+				if !o.ExpectSat && (o.Result == "timeout" || o.Result == "cancelled") && matchKnown(known.Findings, *prop, o.Name) == nil {
+					if o.TimeoutS == 0 {
+						o.TimeoutS = timeout
+					}
+					o.TimeoutS *= 3
+					sub.G.obls = append(sub.G.obls, o)
+					n++
+				}
+			}
+			if len(sub.G.obls) > 0 {
+				again = append(again, sub)
+			}
+		}
+		if n > 0 && n <= 12 {
+			fmt.Printf("retrying %d obligation(s) that timed out, with three times the limit\n", n)
+			solveAll(again, *outDir, timeout, both, 3)
+		}
+	}
 
 	var base Baseline
 	if b, err := os.ReadFile(filepath.Join(*verif, "baseline", "obligations.json")); err == nil {
